@@ -237,6 +237,20 @@ func (x *Engine) nameEnv(fr *Frame, at *ssa.BasicBlock, override map[ssa.Value]V
 			continue
 		}
 		for _, ins := range b.Instrs {
+			if d, ok := ins.(*ssa.DebugRef); ok && d.IsAddr {
+				// an address-taken struct local: the name denotes the object
+				if al, ok := d.X.(*ssa.Alloc); ok {
+					if _, isS := structOf(ptrElem(al.Type())); isS {
+						if nm := exprName(d); nm != "" {
+							if v, ok := fr.vals[al]; ok {
+								if _, isParam := fr.env[nm]; !isParam {
+									env[nm] = v
+								}
+							}
+						}
+					}
+				}
+			}
 			if d, ok := ins.(*ssa.DebugRef); ok && !d.IsAddr {
 				if id, ok := d.Expr.(interface{ String() string }); ok {
 					_ = id
